@@ -9,7 +9,7 @@ for id in "$@"; do
   git -C $WT reset -q --hard $HEAD; git -C $WT clean -qfd -e target -e Cargo.lock
   if ! git -C $WT apply /verif/seeded/$id/patch.diff 2>/dev/null && ! (cd $WT && patch -p1 --fuzz=3 -s --no-backup-if-mismatch < /verif/seeded/$id/patch.diff >/dev/null 2>&1); then echo "$id PATCH-DOES-NOT-APPLY"; continue; fi
   out=$(cd $WT && CARGO_NET_OFFLINE=true cargo test --workspace --no-fail-fast --offline 2>&1 | grep -E "^test result|FAILED|error\[" )
-  fails=$(echo "$out" | grep -c -E "FAILED|failed; [1-9]|error\[")
+  fails=$(echo "$out" | grep -c -E "FAILED| [1-9][0-9]* failed|error\[")
   passed=$(echo "$out" | grep -oE "ok\. [0-9]+ passed" | awk '{s+=$2} END {print s}')
   echo "$id suite: passed=$passed failing-lines=$fails"
   python3 - "$id" "$passed" "$fails" <<'PY'
